@@ -13,7 +13,7 @@ REPO = os.environ.get("VERIF_REPO", "/repo")
 LEAN = os.path.join(VERIF, "lean")
 WORK = os.path.join(VERIF, "_work")
 EVID = os.environ.get("VERIF_EVID", os.path.join(VERIF, "evidence"))   # seeded runs write elsewhere
-REPLAYS = os.path.join(VERIF, "replays")
+REPLAYS = os.environ.get("VERIF_REPLAYS", os.path.join(VERIF, "replays"))      # seeded runs write elsewhere
 FMODEL = os.path.join(LEAN, ".lake", "build", "bin", "fmodel")
 ALLOWED_AXIOMS = {"propext", "Classical.choice", "Quot.sound"}
 FORBIDDEN = [r"\bsorry\b", r"\badmit\b", r"^\s*axiom\s", r"\bnative_decide\b", r"\bbv_decide\b",
